@@ -86,8 +86,11 @@ func (x *execRun) probe(a app.App, ctx app.IOContext) (err error) {
 	if c.F == "app" {
 		ctx.Scope().AppendError(fmt.Errorf("probe %d failed (error appended to its scope)", id))
 	}
-	if c.F == "stop" {
-		ctx.Scope().Stop() // the command ends its scope (as "exit" or an interrupt does) and then fails
+	if c.F == "stop" || c.F == "stopok" {
+		ctx.Scope().Stop() // the command ends its scope (as "exit" or an interrupt does); "stop" then fails, "stopok" does not
+	}
+	if c.F == "kill" {
+		ctx.Scope().Kill() // the library's own idiom: kill the scope, then return the error
 	}
 	switch c.H {
 	case 1:
@@ -99,7 +102,7 @@ func (x *execRun) probe(a app.App, ctx app.IOContext) (err error) {
 	}
 	x.log(id, false)
 	x.inside.Add(-1)
-	if c.F == "ret" || c.F == "stop" {
+	if c.F == "ret" || c.F == "stop" || c.F == "kill" {
 		return fmt.Errorf("probe %d failed (error returned)", id)
 	}
 	return nil
